@@ -12,8 +12,17 @@ Fixpoint diffs (xs : list Q) : list Q :=
   | _ => []
   end.
 
+(** the polynomial with Bernstein coefficients ds is >= -eps on [0,1]: all coefficients >= -eps, or (degree 2, the
+    derivative of a cubic) the exact discriminant criterion d0 P(t) = (d0 (1-t) + d1 t)^2 + (d0 d2 - d1^2) t^2 *)
+Definition nonneg_poly (eps : Q) (ds : list Q) : bool :=
+  match ds with
+  | [d0; d1; d2] =>
+      Qleb (- eps) d0 && Qleb (- eps) d2 && (Qleb (- eps) d1 || Qleb (d1 * d1) ((d0 + eps) * (d2 + eps)))
+  | _ => forallb (fun d => Qleb (- eps) d) ds
+  end.
+
 Definition one_sign (eps : Q) (ds : list Q) : bool :=
-  forallb (fun d => Qleb (- eps) d) ds || forallb (fun d => Qleb d eps) ds.
+  nonneg_poly eps ds || nonneg_poly eps (map Qopp ds).
 
 Definition xmono_piece (eps : Q) (piece : list pt) : bool := one_sign eps (diffs (map px piece)).
 
